@@ -8,7 +8,7 @@ TOK = {"ident": ["zz", "\\61 b", "-x"], "IDENT-and": ["and"], "ident-important":
        "expression(": ["expression("], "@charset-sp": ["@charset "], "@charset": ["@charset"], "@import": ["@import"], "@media": ["@media"],
        "@page": ["@page"], "@font-face": ["@font-face"], "@namespace": ["@namespace"], "@variables": ["@variables"], "@top-left": ["@top-left"],
        "@x": ["@x"], "hash": ["#abc", "#1"], "string": ['"s"', "'t'", '"http://[x"'], "uri": ["url(u)", "url(http://[x)"], "number": ["1", "-.5"], "percentage": ["50%"],
-       "dimension": ["1px", "2e3"], "dimension-esc": ["1\\a x", "1\\70 x"], "number-huge": ["9" * 400, "1" + "0" * 400 + ".5"], "urange": ["u+0-7f"], "~=": ["~="], "|=": ["|="], "cdo": ["<!--"], "cdc": ["-->"], "S": [" ", "\t"],
+       "dimension": ["1px", "2e3"], "dimension-esc": ["1\\a x", "1\\70 x"], "number-huge": ["9" * 400, "1" + "0" * 400 + ".5", "-" + "9" * 400 + ".5", "-" + "9" * 400], "urange": ["u+0-7f"], "~=": ["~="], "|=": ["|="], "cdo": ["<!--"], "cdc": ["-->"], "S": [" ", "\t"],
        "comment": ["/*c*/"], "{": ["{"], "}": ["}"], "(": ["("], ")": [")"], "[": ["["], "]": ["]"], ";": [";"], ":": [":"], ",": [","], ".": ["."],
        "*": ["*"], ">": [">"], "+": ["+"], "!": ["!"], "/": ["/"], "=": ["="], "#": ["#"], "@": ["@"], "%": ["%"], "&": ["&"], "$": ["$"],
        "-": ["-"], "|": ["|"], "bs": ["\\"], "open-string": ['"abc', "'abc"], "open-comment": ["/* abc"], "open-url": ["url(abc", 'url("abc'],
@@ -31,6 +31,10 @@ TEXTS = {"plain": 'a { left: 0 } @media print { b { top: 1px } }', "malformed": 
          "charset-hex": '@charset "hex";\na { left: 0 }', "charset-css": '@charset "css";\na { left: 0 }',
          "charset-rot13": '@charset "rot13";\na { left: 0 }', "charset-unknown": '@charset "no-such-encoding";\na { left: 0 }',
          "charset-undefined": '@charset "undefined";\na { left: 0 }',
+         "variables-self": "@variables { a: var(a) } x { left: var(a) }", "variables-cycle": "@variables { a: var(b); b: var(a) } x { left: var(a); top: var(b) }",
+         "variables-cycle-unused": "@variables { a: var(b); b: var(c); c: var(a) } x { left: 0 }",
+         "surrogate-escape": 'a { content: "\\D800 x" } /* \\dfff */', "surrogate-literal": 'a { content: "\ud800" } /* \udfff */ @x \ud800;',
+         "surrogate-ascii-charset": '@charset "ascii";\na { content: "\\D800 " }', "surrogate-in-selector": ".\\d800 x, #\ud900 { left: 0 }",
          "truncated-charset": "@charset ", "bom": "﻿a { left: 0 }", "charset-rule": '@charset "iso-8859-1";\na { content: "é" }', "empty": ""}
 
 
